@@ -20,8 +20,12 @@ import (
 
 	"google.golang.org/protobuf/proto"
 
+	"github.com/tink-crypto/tink-go/v2/aead/aesgcm"
 	"github.com/tink-crypto/tink-go/v2/core/registry"
+	"github.com/tink-crypto/tink-go/v2/insecuresecretdataaccess"
+	"github.com/tink-crypto/tink-go/v2/key"
 	tinkpb "github.com/tink-crypto/tink-go/v2/proto/tink_go_proto"
+	"github.com/tink-crypto/tink-go/v2/secretdata"
 )
 
 const customPrefix = "type.googleapis.com/verif.c19."
@@ -151,6 +155,19 @@ func (r *rawHybridDec) Decrypt(ct, ctx []byte) ([]byte, error) { return r.a.Decr
 
 func toyPublic(priv []byte) []byte { s := sha256.Sum256(priv); return s[:] }
 
+// rawDeriver is a legacy key deriver (keyderivation/internal/keyderiver.KeyDeriver is satisfied
+// structurally): it derives a 32-byte AES-GCM key without prefix; the factory's fullPrimitiveWrapper
+// re-labels it with the keyset key's prefix type and ID.
+type rawDeriver struct{ k []byte }
+
+func (r *rawDeriver) DeriveKey(salt []byte) (key.Key, error) {
+	ps, err := aesgcm.NewParameters(aesgcm.ParametersOpts{KeySizeInBytes: 32, IVSizeInBytes: 12, TagSizeInBytes: 16, Variant: aesgcm.VariantNoPrefix})
+	if err != nil {
+		return nil, err
+	}
+	return aesgcm.NewKey(secretdata.NewBytesFromData(macOf(r.k, []byte("derive"), salt), insecuresecretdataaccess.Token{}), 0, ps)
+}
+
 type customKM struct {
 	url  string
 	prim func(value []byte) (any, error)
@@ -183,6 +200,7 @@ func registerCustomManagers() {
 	sym("RawPrf", func(v []byte) (any, error) { return &rawPRF{v}, nil })
 	sym("RawAead", func(v []byte) (any, error) { return newRawAEAD(v) })
 	sym("RawDaead", func(v []byte) (any, error) { return &rawDAEAD{v}, nil })
+	sym("RawDeriver", func(v []byte) (any, error) { return &rawDeriver{v}, nil })
 	sym("RawVerify", func(v []byte) (any, error) {
 		if len(v) != ed25519.PublicKeySize {
 			return nil, fmt.Errorf("raw verifier: bad key size %d", len(v))
